@@ -1,11 +1,14 @@
 -------------------------------- MODULE Views --------------------------------
 (* Result types with views (property C08).
 
-   A result type has attributes (primitive, or another result type rendered under a per-attribute view) and
-   named views; each view lists the attributes it exposes.  A method returns a value together with a view
-   name (chosen by the service method, or fixed in the design); the server projects the value on the view,
-   announces the view in the goa-view header, and the client validates and rebuilds the result under the
-   view named by the header.  Graphs, as a catalogue (TLC cannot take records in a cfg):
+   A result type has attributes (primitive, another result type, or a collection of a result type, the nested ones
+   rendered under a per-attribute view) and named views; each view lists the attributes it exposes.  A method returns
+   a value together with a view name (chosen by the service method, or fixed in the design); the server projects the
+   value on the view, announces the view in the goa-view header, and the client VALIDATES and rebuilds the result under
+   the view named by the header: a response that lacks an attribute the view requires, or carries a value that breaks
+   a validation of an attribute of the view, is refused; attributes outside the view play no part.
+
+   Base catalogue (default view written first, a and x always required):
 
      G1  T{a,b}                     default{a,b}  tiny{a}
      G2  T{a,b,c:U}  U{x,y}         T.default{a,b,c/default} T.tiny{a} T.ext{a,c/tiny};  U.default{x,y} U.tiny{x}
@@ -18,105 +21,242 @@
      G7  collection of T{a,d} with d REQUIRED but absent from view tiny:  default{a,d}  tiny{a}
      G8  T{a,o:U,p:U,q:U,r:U}       four adjacent attributes of one nested result type, all rendered tiny:
                                     T.default{a,o/tiny,p/tiny,q/tiny,r/tiny}  T.tiny{a}
+     G9  T{a,l:collection of U}     a NESTED collection:  T.default{a,l/default} T.tiny{a} T.ext{a,l/tiny};  U as in G2
+     G10 G5 with the default view listing p BEFORE o:  T.default{a,p/default,o/tiny}  T.tiny{a}
+         (a view lists its attributes in the order written here; the implicit default view in declaration order)
+
+   Every graph (G4 excepted, whose generated code does not compile: C01's business) is taken in all its VARIANTS,
+   enumerated by TLC; a variant k = [g, order, req]:
+
+     order  where the default view of every result type of the graph is declared
+              "first"     before the other views
+              "last"      after the other views
+              "implicit"  not at all: the design language then adds a default view listing EVERY attribute, nested
+                          result types under the view declared on the attribute, else under their default view
+     req    which attributes are required / validated beyond the base (views differ in what they validate)
+              "base"  nothing more
+              "sel"   the primitive attributes that default lists and tiny does not (b, y, d) are required and carry
+                      a validation (a maximum length): validated by the default view only
+              "oth"   every type gets one more attribute (T: e, U: z), required and validated, listed by every
+                      NON-default view and not by an explicit default view: required by the other views only
+              "nest"  every attribute whose type is (one value of) another result type is required: the service may
+                      leave it out, and a response without it is invalid under every view that lists it
+
+   Values: which attributes the service set (required primitives always: a Go service cannot leave them out), and
+   `bad`: at most one validated attribute carrying a value that breaks its validation.
 *)
 EXTENDS Integers, Sequences, FiniteSets, TLC
 
-CONSTANTS Deviations
+CONSTANTS Deviations,   \* named deviations, see below
+          ReqModes,     \* the req modes taken (all of Reqs, unless a run only needs the predictions for some)
+          AllFixed      \* TRUE: every variant has a method for every view fixed in the design; FALSE (quick tier): the variants
+                        \* other than [first, base] only fix the default view (the service method still chooses every view)
+(* named deviations (what the code is known or suspected to do instead):
+     views.leak_all_attributes                the server renders every attribute whatever the view (vacuity guard)
+     client.required_user_type_nil_deref      the client converts the decoded body BEFORE validating it and takes a required
+                                              attribute of user type to be there: when it is not on the wire - left out by
+                                              the service, or simply outside the rendered view - the client crashes
+     views.required_nested_result_unchecked   the view validators never check that a required attribute whose type is a
+                                              result type is present *)
 
-Graphs == {"G1", "G2", "G3", "G4", "G5", "G6", "G7", "G8"}
-\* view table: <<type, view>> -> set of [attr, sub] where sub = "-" for a primitive attribute, else <<type, view>> of the nested rendering
-Prim(a) == [attr |-> a, sub |-> <<"-", "-">>]
+Graphs == {"G1", "G2", "G3", "G4", "G5", "G6", "G7", "G8", "G9", "G10"}
+Orders == {"first", "last", "implicit"}
+Reqs   == {"base", "sel", "oth", "nest"}
+Range(s) == {s[i] : i \in DOMAIN s}
+
+---------------------------------------------------------------------------
+\* base catalogue
+\* attributes of a type, in declaration order: primitive; result type; result type with a view declared on the attribute; collection
+P(a)        == [attr |-> a, typ |-> "-", own |-> "-", coll |-> FALSE]
+R(a, t)     == [attr |-> a, typ |-> t,   own |-> "-", coll |-> FALSE]
+RV(a, t, v) == [attr |-> a, typ |-> t,   own |-> v,   coll |-> FALSE]
+L(a, t)     == [attr |-> a, typ |-> t,   own |-> "-", coll |-> TRUE]
+BaseAttrs(g, t) ==
+  CASE g = "G1" /\ t = "T"          -> <<P("a"), P("b")>>
+    [] g \in {"G2", "G3"} /\ t = "T" -> <<P("a"), P("b"), R("c", "U")>>
+    [] g = "G4" /\ t = "T"          -> <<P("a"), R("n", "T")>>
+    [] g \in {"G5", "G10"} /\ t = "T" -> <<P("a"), R("o", "U"), R("p", "U")>>
+    [] g = "G6" /\ t = "T"          -> <<P("a"), RV("c", "U", "tiny")>>
+    [] g = "G7" /\ t = "T"          -> <<P("a"), P("d")>>
+    [] g = "G8" /\ t = "T"          -> <<P("a"), R("o", "U"), R("p", "U"), R("q", "U"), R("r", "U")>>
+    [] g = "G9" /\ t = "T"          -> <<P("a"), L("l", "U")>>
+    [] t = "U"                      -> <<P("x"), P("y")>>
+\* types of a graph, in declaration order; the method result is T, or a collection of T
+TypesOf(g) == IF g \in {"G1", "G4", "G7"} THEN <<"T">> ELSE <<"U", "T">>
+TopColl(g) == g \in {"G3", "G7"}
+
+\* a view entry: a primitive attribute; a nested result type under the view the parent view names; a nested result type
+\* for which the parent view names no view (the view declared on the attribute applies, else default)
+Prim(a)       == [attr |-> a, sub |-> <<"-", "-">>]
 Nest(a, t, v) == [attr |-> a, sub |-> <<t, v>>]
-ViewTable(g, t, v) ==
-  CASE g = "G1" /\ t = "T" /\ v = "default" -> {Prim("a"), Prim("b")}
-    [] g = "G1" /\ t = "T" /\ v = "tiny"    -> {Prim("a")}
-    [] g \in {"G2", "G3"} /\ t = "T" /\ v = "default" -> {Prim("a"), Prim("b"), Nest("c", "U", "default")}
-    [] g \in {"G2", "G3"} /\ t = "T" /\ v = "tiny"    -> {Prim("a")}
-    [] g \in {"G2", "G3"} /\ t = "T" /\ v = "ext"     -> {Prim("a"), Nest("c", "U", "tiny")}
-    [] g \in {"G2", "G3"} /\ t = "U" /\ v = "default" -> {Prim("x"), Prim("y")}
-    [] g \in {"G2", "G3"} /\ t = "U" /\ v = "tiny"    -> {Prim("x")}
-    [] g = "G5" /\ t = "T" /\ v = "default" -> {Prim("a"), Nest("o", "U", "tiny"), Nest("p", "U", "default")}
-    [] g = "G5" /\ t = "T" /\ v = "tiny"    -> {Prim("a")}
-    [] g = "G6" /\ t = "T" /\ v = "default" -> {Prim("a"), Nest("c", "U", "default")}
-    [] g = "G6" /\ t = "T" /\ v = "tiny"    -> {Prim("a")}
-    [] g = "G6" /\ t = "T" /\ v = "ext"     -> {Prim("a"), Nest("c", "U", "tiny")}
-    [] g \in {"G5", "G6"} /\ t = "U" /\ v = "default" -> {Prim("x"), Prim("y")}
-    [] g \in {"G5", "G6"} /\ t = "U" /\ v = "tiny"    -> {Prim("x")}
-    [] g = "G7" /\ t = "T" /\ v = "default" -> {Prim("a"), Prim("d")}
-    [] g = "G7" /\ t = "T" /\ v = "tiny"    -> {Prim("a")}
-    [] g = "G8" /\ t = "T" /\ v = "default" -> {Prim("a"), Nest("o", "U", "tiny"), Nest("p", "U", "tiny"), Nest("q", "U", "tiny"), Nest("r", "U", "tiny")}
-    [] g = "G8" /\ t = "T" /\ v = "tiny"    -> {Prim("a")}
-    [] g = "G8" /\ t = "U" /\ v = "default" -> {Prim("x"), Prim("y")}
-    [] g = "G8" /\ t = "U" /\ v = "tiny"    -> {Prim("x")}
-    [] g = "G4" /\ t = "T" /\ v = "default" -> {Prim("a"), Nest("n", "T", "tiny")}
-    [] g = "G4" /\ t = "T" /\ v = "tiny"    -> {Prim("a")}
-    [] OTHER -> {}
-ViewsOf(g) == IF g \in {"G2", "G3", "G6"} THEN {"default", "tiny", "ext"} ELSE {"default", "tiny"}
+Inh(a, t)     == [attr |-> a, sub |-> <<t, "=">>]
+V(n, s) == [name |-> n, attrs |-> s]     \* s: the entries in the order the view lists them
+UViews == <<V("default", <<Prim("x"), Prim("y")>>), V("tiny", <<Prim("x")>>)>>
+BaseViews(g, t) ==
+  CASE g = "G1" /\ t = "T" -> <<V("default", <<Prim("a"), Prim("b")>>), V("tiny", <<Prim("a")>>)>>
+    [] g \in {"G2", "G3"} /\ t = "T" -> <<V("default", <<Prim("a"), Prim("b"), Nest("c", "U", "default")>>), V("tiny", <<Prim("a")>>),
+                                          V("ext", <<Prim("a"), Nest("c", "U", "tiny")>>)>>
+    [] g = "G4" /\ t = "T" -> <<V("default", <<Prim("a"), Nest("n", "T", "tiny")>>), V("tiny", <<Prim("a")>>)>>
+    [] g = "G5" /\ t = "T" -> <<V("default", <<Prim("a"), Nest("o", "U", "tiny"), Nest("p", "U", "default")>>), V("tiny", <<Prim("a")>>)>>
+    [] g = "G10" /\ t = "T" -> <<V("default", <<Prim("a"), Nest("p", "U", "default"), Nest("o", "U", "tiny")>>), V("tiny", <<Prim("a")>>)>>
+    [] g = "G6" /\ t = "T" -> <<V("default", <<Prim("a"), Nest("c", "U", "default")>>), V("tiny", <<Prim("a")>>), V("ext", <<Prim("a"), Inh("c", "U")>>)>>
+    [] g = "G7" /\ t = "T" -> <<V("default", <<Prim("a"), Prim("d")>>), V("tiny", <<Prim("a")>>)>>
+    [] g = "G8" /\ t = "T" -> <<V("default", <<Prim("a"), Nest("o", "U", "tiny"), Nest("p", "U", "tiny"), Nest("q", "U", "tiny"), Nest("r", "U", "tiny")>>),
+                                V("tiny", <<Prim("a")>>)>>
+    [] g = "G9" /\ t = "T" -> <<V("default", <<Prim("a"), Nest("l", "U", "default")>>), V("tiny", <<Prim("a")>>), V("ext", <<Prim("a"), Nest("l", "U", "tiny")>>)>>
+    [] t = "U" -> UViews
+BaseReq(g, t) == IF t = "U" THEN {"x"} ELSE IF g = "G7" THEN {"a", "d"} ELSE {"a"}
 
-\* which optional attributes the service method set in the value it returns (a, x are required and always set)
-ValueSpace(g) ==
+\* which optional attributes the service method set in the value it returns (before the required primitives are added)
+ValueBase(g) ==
   CASE g = "G1" -> {{"a"}, {"a", "b"}}
     [] g \in {"G2", "G3"} -> {{"a"}, {"a", "b"}, {"a", "c", "c.x"}, {"a", "b", "c", "c.x", "c.y"}, {"a", "c", "c.x", "c.y"}}
     [] g = "G4" -> {{"a"}, {"a", "n", "n.a"}, {"a", "n", "n.a", "n.n", "n.n.a"}}
-    [] g = "G5" -> {{"a"}, {"a", "o", "o.x", "o.y", "p", "p.x", "p.y"}, {"a", "p", "p.x", "p.y"}, {"a", "o", "o.x", "o.y"}, {"a", "o", "o.x", "p", "p.x"}}
+    [] g \in {"G5", "G10"} -> {{"a"}, {"a", "o", "o.x", "o.y", "p", "p.x", "p.y"}, {"a", "p", "p.x", "p.y"}, {"a", "o", "o.x", "o.y"}, {"a", "o", "o.x", "p", "p.x"}}
     [] g = "G6" -> {{"a"}, {"a", "c", "c.x"}, {"a", "c", "c.x", "c.y"}}
     [] g = "G7" -> {{"a", "d"}}
     [] g = "G8" -> {{"a", "o", "o.x", "o.y", "p", "p.x", "p.y", "q", "q.x", "q.y", "r", "r.x", "r.y"}, {"a", "p", "p.x", "p.y", "r", "r.x", "r.y"}}
+    [] g = "G9" -> {{"a"}, {"a", "l", "l.x"}, {"a", "l", "l.x", "l.y"}}
 
-\* projection: the set of attribute paths of `val` that view (t, v) exposes
-RECURSIVE Proj(_, _, _, _, _, _)
-Proj(g, t, v, val, prefix, depth) ==
+---------------------------------------------------------------------------
+\* variants
+ASSUME ReqModes \subseteq Reqs /\ AllFixed \in BOOLEAN
+Variants == {k \in [g: Graphs, order: Orders, req: ReqModes] : k.g = "G4" => k.order = "first" /\ k.req = "base"}
+Extra(t) == IF t = "T" THEN "e" ELSE "z"
+Attrs(k, t) == IF k.req = "oth" THEN Append(BaseAttrs(k.g, t), P(Extra(t))) ELSE BaseAttrs(k.g, t)
+AttrOf(k, t, a) == CHOOSE x \in Range(Attrs(k, t)) : x.attr = a
+\* the views as the design declares them, in declaration order
+DeclViews(k, t) ==
+  LET bv == BaseViews(k.g, t)
+      vs == [i \in DOMAIN bv |-> IF k.req = "oth" /\ bv[i].name # "default" THEN [bv[i] EXCEPT !.attrs = Append(@, Prim(Extra(t)))] ELSE bv[i]]
+      nd == SelectSeq(vs, LAMBDA v : v.name # "default")
+      df == SelectSeq(vs, LAMBDA v : v.name = "default")
+  IN CASE k.order = "first" -> df \o nd [] k.order = "last" -> nd \o df [] OTHER -> nd
+ViewsOf(k) == {v.name : v \in Range(DeclViews(k, "T"))} \cup {"default"}
+FixedViews(k) == IF AllFixed \/ (k.order = "first" /\ k.req = "base") THEN ViewsOf(k) ELSE {"default"}
+OwnView(a) == IF a.own = "-" THEN "default" ELSE a.own
+\* the entries of view v of type t with every nested rendering resolved to <<type, view>>
+ViewTable(k, t, v) ==
+  IF v = "default" /\ k.order = "implicit"
+  THEN {IF a.typ = "-" THEN Prim(a.attr) ELSE Nest(a.attr, a.typ, OwnView(a)) : a \in Range(Attrs(k, t))}
+  ELSE LET m == {w \in Range(DeclViews(k, t)) : w.name = v} IN
+       IF m = {} THEN {} ELSE {IF e.sub[2] = "=" THEN Nest(e.attr, e.sub[1], OwnView(AttrOf(k, t, e.attr))) ELSE e : e \in Range((CHOOSE w \in m : TRUE).attrs)}
+
+BaseView(g, t, v) == LET m == {w \in Range(BaseViews(g, t)) : w.name = v} IN IF m = {} THEN {} ELSE Range((CHOOSE w \in m : TRUE).attrs)
+SelAttrs(g, t) == {e.attr : e \in {x \in BaseView(g, t, "default") : x.sub[1] = "-" /\ x \notin BaseView(g, t, "tiny")}}
+NestedSingles(k, t) == {a.attr : a \in {x \in Range(Attrs(k, t)) : x.typ # "-" /\ ~x.coll}}
+Required(k, t) == BaseReq(k.g, t) \cup (CASE k.req = "sel" -> SelAttrs(k.g, t) [] k.req = "oth" -> {Extra(t)} [] k.req = "nest" -> NestedSingles(k, t) [] OTHER -> {})
+Validated(k, t) == CASE k.req = "sel" -> SelAttrs(k.g, t) [] k.req = "oth" -> {Extra(t)} [] OTHER -> {}
+
+Path(prefix, a) == IF prefix = "" THEN a ELSE prefix \o "." \o a
+\* paths of the primitive attributes that are required (what = "req") / validated (what = "val") and live under the parents present in v
+Marked(k, what, t) == IF what = "req" THEN Required(k, t) ELSE Validated(k, t)
+RECURSIVE PrimPaths(_, _, _, _, _, _)
+PrimPaths(k, what, t, v, prefix, depth) ==
   IF depth = 0 THEN {} ELSE
-  UNION {
-    LET p == IF prefix = "" THEN e.attr ELSE prefix \o "." \o e.attr IN
-    IF p \notin val THEN {}
-    ELSE IF e.sub[1] = "-" THEN {p}
-    ELSE {p} \cup Proj(g, e.sub[1], e.sub[2], val, p, depth - 1)
-    : e \in ViewTable(g, t, v)}
+  UNION {LET p == Path(prefix, a.attr) IN
+         IF a.typ = "-" THEN (IF a.attr \in Marked(k, what, t) THEN {p} ELSE {})
+         ELSE IF p \in v THEN PrimPaths(k, what, a.typ, v, p, depth - 1) ELSE {}
+         : a \in Range(Attrs(k, t))}
+ValueSpace(k) == {v \cup PrimPaths(k, "req", "T", v, "", 4) : v \in ValueBase(k.g)}
+BadSpace(k, v) == {{}} \cup {{p} : p \in v \cap PrimPaths(k, "val", "T", v, "", 4)}
 
-VARIABLES cfg,      \* [g: graph, fixed: view name fixed in the design or "-", chosen: view the service method names ("" = default)]
+\* projection: the attribute paths of `val` that view (t, v) exposes
+RECURSIVE Proj(_, _, _, _, _, _)
+Proj(k, t, v, val, prefix, depth) ==
+  IF depth = 0 THEN {} ELSE
+  UNION {LET p == Path(prefix, e.attr) IN
+         IF p \notin val THEN {}
+         ELSE IF e.sub[1] = "-" THEN {p}
+         ELSE {p} \cup Proj(k, e.sub[1], e.sub[2], val, p, depth - 1)
+         : e \in ViewTable(k, t, v)}
+
+\* validity of the attribute paths `keys` (of which `bd` carry a value breaking the attribute's validation) under view (t, v):
+\* only the attributes the view lists count
+RECURSIVE Valid(_, _, _, _, _, _, _, _)
+Valid(k, t, v, keys, bd, prefix, depth, nestReq) ==
+  depth = 0 \/
+  \A e \in ViewTable(k, t, v) :
+    LET p == Path(prefix, e.attr) IN
+    /\ (e.attr \in Required(k, t) /\ (e.sub[1] = "-" \/ nestReq)) => p \in keys
+    /\ p \in keys /\ e.sub[1] = "-" /\ e.attr \in Validated(k, t) => p \notin bd
+    /\ p \in keys /\ e.sub[1] # "-" => Valid(k, e.sub[1], e.sub[2], keys, bd, p, depth - 1, nestReq)
+
+\* client.required_user_type_nil_deref: the conversion walks the whole TYPE (not the view) through the objects that are there
+RECURSIVE Derefs(_, _, _, _, _)
+Derefs(k, t, keys, prefix, depth) ==
+  depth > 0 /\
+  \E a \in Range(Attrs(k, t)) :
+    LET p == Path(prefix, a.attr) IN
+    /\ a.typ # "-"
+    /\ \/ ~a.coll /\ a.attr \in Required(k, t) /\ p \notin keys
+       \/ p \in keys /\ Derefs(k, a.typ, keys, p, depth - 1)
+
+---------------------------------------------------------------------------
+VARIABLES cfg,      \* [g, order, req: the variant; fixed: view name fixed in the design or "-"; chosen: view the service method names ("" = default)]
           val,      \* set of attribute paths the service set
-          pc, wireKeys, viewHeader, clientKeys, cerr
-vars == <<cfg, val, pc, wireKeys, viewHeader, clientKeys, cerr>>
+          bad,      \* subset of val: attributes whose value breaks their validation
+          pc, sres, wireKeys, viewHeader, clientKeys, cerr
+vars == <<cfg, val, bad, pc, sres, wireKeys, viewHeader, clientKeys, cerr>>
 
+K == [g |-> cfg.g, order |-> cfg.order, req |-> cfg.req]
 EffView == IF cfg.fixed # "-" THEN cfg.fixed ELSE IF cfg.chosen = "" THEN "default" ELSE cfg.chosen
+Expected == Proj(K, "T", EffView, val, "", 4)
+ValidServed == Valid(K, "T", EffView, Expected, bad, "", 4, TRUE)
 
 Init ==
-  /\ cfg \in {c \in [g: Graphs, fixed: {"-", "default", "tiny", "ext"}, chosen: {"", "default", "tiny", "ext", "bogus"}] :
-                /\ (c.fixed # "-" => c.fixed \in ViewsOf(c.g) /\ c.chosen = "")
-                /\ (c.fixed = "-" /\ c.chosen \notin {"", "bogus"} => c.chosen \in ViewsOf(c.g))}
-  /\ val \in ValueSpace(cfg.g)
-  /\ pc = "server" /\ wireKeys = {} /\ viewHeader = "none" /\ clientKeys = {} /\ cerr = "none"
+  /\ \E k \in Variants :
+       cfg \in {c \in [g: {k.g}, order: {k.order}, req: {k.req}, fixed: {"-"} \cup FixedViews(k), chosen: {"", "bogus"} \cup ViewsOf(k)] :
+                  c.fixed # "-" => c.chosen = ""}
+  /\ val \in ValueSpace(K)
+  /\ bad \in BadSpace(K, val)
+  /\ cfg.chosen = "bogus" => bad = {}
+  /\ pc = "server" /\ sres = "none" /\ wireKeys = {} /\ viewHeader = "none" /\ clientKeys = {} /\ cerr = "none"
 
 \* server: project on the effective view; announce it (a view fixed in the design needs no header)
 ServerEncode ==
   /\ pc = "server" /\ cfg.chosen # "bogus"
-  /\ wireKeys' = IF "views.leak_all_attributes" \in Deviations THEN val ELSE Proj(cfg.g, "T", EffView, val, "", 4)
+  /\ wireKeys' = IF "views.leak_all_attributes" \in Deviations THEN val ELSE Expected
   /\ viewHeader' = IF cfg.fixed # "-" THEN "none" ELSE EffView
-  /\ pc' = "client"
-  /\ UNCHANGED <<cfg, val, clientKeys, cerr>>
+  /\ sres' = "ok" /\ pc' = "client"
+  /\ UNCHANGED <<cfg, val, bad, clientKeys, cerr>>
+\* the statement does not say whether a server checks what the service hands it: it may refuse to render a result that is
+\* invalid under the view (the client then sees a failure, never a result)
+ServerRefuse ==
+  /\ pc = "server" /\ cfg.chosen # "bogus" /\ ~ValidServed
+  /\ sres' = "error" /\ pc' = "client"
+  /\ UNCHANGED <<cfg, val, bad, wireKeys, viewHeader, clientKeys, cerr>>
 \* a response labelled with a view the type does not define (sent by something other than the generated server)
 ForeignResponse ==
   /\ pc = "server" /\ cfg.chosen = "bogus"
-  /\ wireKeys' = Proj(cfg.g, "T", "default", val, "", 4) /\ viewHeader' = "bogus"
-  /\ pc' = "client"
-  /\ UNCHANGED <<cfg, val, clientKeys, cerr>>
+  /\ wireKeys' = Proj(K, "T", "default", val, "", 4) /\ viewHeader' = "bogus"
+  /\ sres' = "ok" /\ pc' = "client"
+  /\ UNCHANGED <<cfg, val, bad, clientKeys, cerr>>
 ClientDecode ==
   /\ pc = "client"
-  /\ LET view == IF cfg.fixed # "-" THEN cfg.fixed ELSE IF viewHeader \in {"none", ""} THEN "default" ELSE viewHeader IN
-     IF view \notin ViewsOf(cfg.g)
+  /\ LET view == IF cfg.fixed # "-" THEN cfg.fixed ELSE IF viewHeader \in {"none", ""} THEN "default" ELSE viewHeader
+         nestReq == "views.required_nested_result_unchecked" \notin Deviations IN
+     IF sres = "error" THEN cerr' = "server_error" /\ clientKeys' = {}
+     ELSE IF "client.required_user_type_nil_deref" \in Deviations /\ Derefs(K, "T", wireKeys, "", 4)
+     THEN cerr' = "crash" /\ clientKeys' = {}
+     ELSE IF view \notin ViewsOf(K)
      THEN cerr' = "unknown_view" /\ clientKeys' = {}
-     ELSE cerr' = "none" /\ clientKeys' = Proj(cfg.g, "T", view, wireKeys, "", 4)
+     ELSE IF ~Valid(K, "T", view, wireKeys, bad \cap wireKeys, "", 4, nestReq)
+     THEN cerr' = "invalid" /\ clientKeys' = {}
+     ELSE cerr' = "none" /\ clientKeys' = Proj(K, "T", view, wireKeys, "", 4)
   /\ pc' = "done"
-  /\ UNCHANGED <<cfg, val, wireKeys, viewHeader>>
-Next == ServerEncode \/ ForeignResponse \/ ClientDecode
+  /\ UNCHANGED <<cfg, val, bad, sres, wireKeys, viewHeader>>
+Next == ServerEncode \/ ServerRefuse \/ ForeignResponse \/ ClientDecode
 Spec == Init /\ [][Next]_vars
 
 ---------------------------------------------------------------------------
-Expected == Proj(cfg.g, "T", EffView, val, "", 4)
 \* C08
-ExactlyViewAttributes == pc = "done" /\ cfg.chosen # "bogus" => wireKeys = Expected /\ clientKeys = Expected
-ViewHeaderAccompanies == pc \in {"client", "done"} /\ cfg.chosen # "bogus" /\ cfg.fixed = "-" => viewHeader = EffView
+ExactlyViewAttributes == pc = "done" /\ cfg.chosen # "bogus" /\ sres = "ok" => wireKeys = Expected /\ (cerr = "none" => clientKeys = Expected)
+ViewHeaderAccompanies == pc \in {"client", "done"} /\ cfg.chosen # "bogus" /\ cfg.fixed = "-" /\ sres = "ok" => viewHeader = EffView
 ClientRefusesUnknownView == pc = "done" /\ cfg.chosen = "bogus" => cerr = "unknown_view"
 NothingOutsideTheView == pc = "done" => wireKeys \subseteq val /\ clientKeys \subseteq wireKeys
+\* validated under the SAME view: what is valid under the rendered view is delivered, what is not never is
+ValidIsDelivered == pc = "done" /\ cfg.chosen # "bogus" /\ ValidServed => cerr = "none"
+InvalidIsRefused == pc = "done" /\ cfg.chosen # "bogus" /\ ~ValidServed => cerr \in {"invalid", "server_error"}
+ClientNeverCrashes == cerr # "crash"
 =============================================================================
